@@ -396,4 +396,39 @@ def c06_5(c: Ctx) -> None:
         c.ok(where(u), 'no concurrent handler execution path at all')
 
 
+@ob('C06.6', 'PAIR', 'whoever gives the global lock away in the middle of a hold (releases its semaphore anywhere but in __aexit__) has it back on every exit, including a cancellation that '
+    'arrives while it is waiting to get it back: otherwise the enclosing `async with` releases a lock it no longer holds, under another bus\'s running handler')
+def c06_6(c: Ctx) -> None:
+    from sa.cfg import search
+
+    n_sites = 0
+    for u in c.prog.units.values():
+        if u.module not in (SVC, MOD) or (u.cls == 'ReentrantLock' and u.name == '__aexit__'):
+            continue
+        g = None
+        for call in [x for x in own_nodes(u.node) if isinstance(x, ast.Call) and call_name(x) == 'release' and isinstance(x.func, ast.Attribute)]:
+            recv = call.func.value
+            t = c.prog.infer(recv, u)
+            is_sem = (t is not None and 'Semaphore' in str(t)) or 'semaphore' in U(recv).lower()
+            if not is_sem or u.cls != 'ReentrantLock' and '_get_global_lock' not in U(recv) and 'global' not in U(recv).lower():
+                continue
+            n_sites += 1
+            g = g or c.cfg(u)
+            acq = {n.id for n in g.live_nodes() if any(call_name(x) == 'acquire' and U(x.func.value) == U(recv) for x in q.node_calls(n) if isinstance(x.func, ast.Attribute))}
+            bad = None
+            for rn in g.nodes_of(q.stmt_of(call)):
+                # a path from the release to an exit on which no acquire() *completed* (leaving the acquire statement by an exception - cancellation - is not having the lock)
+                bad = bad or search([(e.dst, ()) for e in rn.succ if not e.is_exc], is_target=lambda n, d: n.kind in ('exit', 'raise_exit'),
+                                    edge_ok=lambda n, e, d: None if (n.id in acq and not e.is_exc) else d)
+            if bad is None and acq:
+                c.ok(where(u, call), f'{u.qualname}: after `{U(call)}` every exit has passed a completed `{U(recv)}.acquire()`')
+            else:
+                how = next((s_.via for s_ in (bad or []) if s_.via.startswith('raises')), 'normal path')
+                c.fail(u, f'{U(call)} in {u.qualname} is not followed by a completed acquire() on an exit via {how}', 'the lock is given away in the middle of a hold and not taken back on every exit (a cancellation '
+                       'while waiting to re-acquire leaves without it): the enclosing `async with` then releases a lock this context does not hold, and two buses\' handlers run at once', node=call,
+                       witness=c.path(g.nodes_of(q.stmt_of(call))[0], bad) if bad else [])
+    if n_sites == 0:
+        c.ok('bubus/service.py', 'the global lock\'s semaphore is released in ReentrantLock.__aexit__ only (never lent out in the middle of a hold)')
+
+
 OBLIGATIONS = ob.obs
